@@ -9,26 +9,40 @@
 //!   link* are ENVIRONMENT: they are part of the action, chosen afresh before each event, so "all
 //!   strategy/risk outputs x link fault patterns" is a choice dimension of the search (a link may be
 //!   healthy at one step and gone at the next = fault sequences);
-//! * `ScriptTx` records every delivery per exchange link.
+//! * `ScriptTx` records every delivery per exchange link; on the command send path, on the enabling
+//!   event and on the direct calls every tick is ALSO run with the real production link type
+//!   `UnboundedTx<ExecutionRequest>` (receiver held / dropped / `None` entry), so the error class of a
+//!   gone link and "Ok means delivered" are judged on the channel the engine is shipped with;
+//! * the strategy (`XStrategy`) also chooses the cancels it adds to its `ClosePositions` answer, and the
+//!   risk manager (`XRisk`) may refuse single requests of a batch.
 //!
-//! Alphabet (see `M::actions`): market trade, account fill, order snapshot (open / cancelled) of a
-//! tracked id, `TradingStateUpdate(Enabled|Disabled)`, the four commands (`SendOpenRequests`,
-//! `SendCancelRequests`, `ClosePositions(filter)`, `CancelOrders(filter)`), `Shutdown`;
+//! Alphabet (see `M::gen_actions`): market trade, account fill, order snapshot (open / cancelled) of a
+//! tracked id, `TradingStateUpdate(Enabled|Disabled)`, the four commands (`SendOpenRequests` - also
+//! re-using the cid of an order tracked on ANOTHER instrument -, `SendCancelRequests`,
+//! `ClosePositions(filter)` answered with market orders and optionally a cancel, `CancelOrders(filter)`),
+//! `Shutdown`; probe events without successor (`Ev::is_probe`): account / market `Reconnecting` notice,
+//! balance snapshot, full account snapshot, cancel response (ok / rejected), market L1;
 //! strategy menu: nothing / one open per exchange / open to an exchange index out of range / open whose
-//! exchange differs from the instrument's home exchange / two opens on two exchanges / cancel of a
+//! exchange differs from the instrument's home exchange / two opens in one batch / cancel of a
 //! tracked id / cancel of an untracked id / open + cancel; risk menu: approve / refuse opens / refuse
-//! cancels / refuse all; link modes per addressed exchange: healthy / closed (unrecoverable) / `None`
-//! entry / unhealthy (recoverable).
+//! cancels / refuse all / refuse one open of two; link modes per addressed exchange: healthy / closed
+//! (unrecoverable) / `None` entry / unhealthy (recoverable). Configurations: 1, 2 and 3 exchanges (the
+//! fresh engine state starts with every connection `Reconnecting`, so both connectivity values occur).
 //!
 //! Oracle = the statement, rule by rule (signatures `C03/<rule>/...`):
 //!  R1 `sent-delivered-once`   every request reported `sent` (command output or algo output in the audit, or
 //!                             the direct return value) is in the log of the link of `request.key.exchange`
-//!                             exactly once and in no other link's log;
+//!                             exactly once and in no other link's log; one issuer does not report it twice;
+//!                             a later tick that issues nothing for an already tracked order delivers
+//!                             nothing for it (`redelivered-in-later-tick`);
 //!  R2 `sent-then-in-flight`   a sent open is `OpenInFlight`, a sent cancel of a tracked order is
 //!                             `CancelInFlight` after the tick;
 //!  R3 `failed-*`              a request reported failed carries an error that is unrecoverable iff the link
 //!                             is closed / absent / out of range, was delivered nowhere, left no mark, and a
-//!                             fatal failure makes the tick terminal (audit carries errors);
+//!                             fatal failure makes the tick terminal (the audit carries the error and
+//!                             `Terminal::is_terminal()` - what the run loops stop on - is true);
+//!     `recoverable-failure`   conversely, with every link present (healthy / unhealthy) and only known exchanges
+//!                             named, the audit carries no unrecoverable error (the engine does not stop);
 //!  R4 `refused-*`             a request the risk manager refused is reported refused, delivered nowhere, no mark;
 //!  R5 `disabled-*`            while Disabled (and not on the enabling event) nothing the strategy proposed is
 //!                             delivered, marked or reported; commands are still actioned
@@ -37,8 +51,9 @@
 //!  R6 `enabled-generates`     on `TradingStateUpdate(Enabled)` (that very event) and on every market /
 //!                             account / trading event processed while enabled the strategy's approved
 //!                             requests are issued (healthy link => delivered once, in flight, reported).
-//!  R7 `frame`                 an order addressed by nothing in the tick (event, proposal, command, report,
-//!                             delivery) is unchanged ("... and no other order changed" of the design).
+//!  R7 `frame`                 an order (instrument, cid) addressed by nothing in the tick (event, proposal,
+//!                             command, report, delivery) is unchanged ("... and no other order changed" of
+//!                             the design); the same cid on another instrument is another order.
 //! Signatures name rule + abstract cause only; requests already flagged by the report-driven rules
 //! R1-R4 are skipped by the input-driven rules R5/R6 so that one defect yields one or two signatures.
 //! Not demanded (statement silent, all behaviours accepted): whether generation runs after a command,
@@ -60,7 +75,7 @@ use barter::{
         audit::EngineAudit,
         command::Command,
         error::EngineError,
-        execution_tx::MultiExchangeTxMap,
+        execution_tx::{ExecutionTxMap, MultiExchangeTxMap},
         state::{
             EngineState,
             global::DefaultGlobalData,
@@ -72,17 +87,27 @@ use barter::{
         },
     },
     execution::{AccountStreamEvent, request::ExecutionRequest},
+    risk::{RiskApproved, RiskManager, RiskRefused},
     shutdown::Shutdown,
+    strategy::{
+        algo::AlgoStrategy,
+        close_positions::{ClosePositionsStrategy, close_open_positions_with_market_orders},
+        on_disconnect::OnDisconnectStrategy,
+        on_trading_disabled::OnTradingDisabled,
+    },
 };
 use barter_data::{
+    books::Level,
     event::{DataKind, MarketEvent},
     streams::consumer::MarketStreamEvent,
-    subscription::trade::PublicTrade,
+    subscription::{book::OrderBookL1, trade::PublicTrade},
 };
 use barter_execution::{
-    AccountEvent, AccountEventKind,
+    AccountEvent, AccountEventKind, AccountSnapshot, InstrumentAccountSnapshot,
+    balance::{AssetBalance, Balance},
+    error::{ApiError, OrderError},
     order::{
-        Order, OrderKey, OrderKind, TimeInForce,
+        Order, OrderEvent, OrderKey, OrderKind, TimeInForce,
         id::{ClientOrderId, OrderId},
         request::{OrderRequestCancel, OrderRequestOpen, RequestCancel, RequestOpen},
         state::{ActiveOrderState, Cancelled, Open, OrderState},
@@ -91,18 +116,23 @@ use barter_execution::{
 };
 use barter_instrument::{
     Side,
+    asset::AssetIndex,
     exchange::{ExchangeId, ExchangeIndex},
     index::IndexedInstruments,
     instrument::InstrumentIndex,
 };
-use barter_integration::{collection::one_or_many::OneOrMany, snapshot::Snapshot};
+use barter_integration::{
+    Terminal,
+    channel::{Tx, UnboundedRx, UnboundedTx, mpsc_unbounded},
+    collection::one_or_many::OneOrMany,
+    snapshot::Snapshot,
+};
 use rust_decimal::Decimal;
 use serde::{Deserialize, Serialize};
 use serde_json::{Value, json};
 use std::{
     collections::BTreeSet,
     hash::{Hash, Hasher},
-    panic::{AssertUnwindSafe, catch_unwind},
     sync::{
         Arc,
         atomic::{AtomicU64, Ordering},
@@ -138,6 +168,159 @@ pub fn fresh_state(instruments: &IndexedInstruments, trading: TradingState) -> E
         .time_engine_start(t0())
         .trading_state(trading)
         .build()
+}
+
+// ------------------------------------------------------------------------------------------------
+// Own seams (C03 only; `mk_engine` above keeps the `common.rs` seams for C19)
+// ------------------------------------------------------------------------------------------------
+
+/// Strategy whose algo output AND whose `ClosePositions` cancels are environment. (`ScriptStrategy`
+/// never answers a `ClosePositions` command with cancel requests, so the cancel half of
+/// `close_positions()` - send + record in flight - was never driven.)
+#[derive(Debug, Clone, Default)]
+pub struct XStrategy {
+    id: StrategyId2,
+    cancels: Vec<OrderRequestCancel<ExchangeIndex, InstrumentIndex>>,
+    opens: Vec<OrderRequestOpen<ExchangeIndex, InstrumentIndex>>,
+    /// cancel requests the strategy adds to the market orders that close the positions
+    close_cancels: Vec<OrderRequestCancel<ExchangeIndex, InstrumentIndex>>,
+}
+impl AlgoStrategy for XStrategy {
+    type State = EState;
+    fn generate_algo_orders(
+        &self,
+        _: &Self::State,
+    ) -> (
+        impl IntoIterator<Item = OrderRequestCancel<ExchangeIndex, InstrumentIndex>>,
+        impl IntoIterator<Item = OrderRequestOpen<ExchangeIndex, InstrumentIndex>>,
+    ) {
+        (self.cancels.clone(), self.opens.clone())
+    }
+}
+impl ClosePositionsStrategy for XStrategy {
+    type State = EState;
+    fn close_positions_requests<'a>(
+        &'a self,
+        state: &'a Self::State,
+        filter: &'a InstrumentFilter<ExchangeIndex, AssetIndex, InstrumentIndex>,
+    ) -> (
+        impl IntoIterator<Item = OrderRequestCancel<ExchangeIndex, InstrumentIndex>> + 'a,
+        impl IntoIterator<Item = OrderRequestOpen<ExchangeIndex, InstrumentIndex>> + 'a,
+    )
+    where
+        ExchangeIndex: 'a,
+        AssetIndex: 'a,
+        InstrumentIndex: 'a,
+    {
+        let (_none, opens) = close_open_positions_with_market_orders(&self.id.0, state, filter, |state| {
+            ClientOrderId::new(format!("close-{}", state.key.index()))
+        });
+        (self.close_cancels.clone(), opens)
+    }
+}
+impl<C, S, T, R> OnDisconnectStrategy<C, S, T, R> for XStrategy {
+    type OnDisconnect = ExchangeId;
+    fn on_disconnect(_: &mut Engine<C, S, T, Self, R>, exchange: ExchangeId) -> ExchangeId {
+        exchange
+    }
+}
+impl<C, S, T, R> OnTradingDisabled<C, S, T, R> for XStrategy {
+    type OnTradingDisabled = u32;
+    fn on_trading_disabled(_: &mut Engine<C, S, T, Self, R>) -> u32 {
+        0
+    }
+}
+
+/// Risk manager whose verdict is environment, per request kind and per client order id (so that one
+/// batch can hold approved and refused requests of the same kind).
+#[derive(Debug, Clone, Default)]
+pub struct XRisk {
+    refuse_opens: bool,
+    refuse_cancels: bool,
+    refuse_cids: Vec<String>,
+}
+impl RiskManager for XRisk {
+    type State = EState;
+    fn check(
+        &self,
+        _: &Self::State,
+        cancels: impl IntoIterator<Item = OrderRequestCancel<ExchangeIndex, InstrumentIndex>>,
+        opens: impl IntoIterator<Item = OrderRequestOpen<ExchangeIndex, InstrumentIndex>>,
+    ) -> (
+        impl IntoIterator<Item = RiskApproved<OrderRequestCancel<ExchangeIndex, InstrumentIndex>>>,
+        impl IntoIterator<Item = RiskApproved<OrderRequestOpen<ExchangeIndex, InstrumentIndex>>>,
+        impl IntoIterator<Item = RiskRefused<OrderRequestCancel<ExchangeIndex, InstrumentIndex>>>,
+        impl IntoIterator<Item = RiskRefused<OrderRequestOpen<ExchangeIndex, InstrumentIndex>>>,
+    ) {
+        let by_cid = |cid: &ClientOrderId| self.refuse_cids.iter().any(|c| c.as_str() == cid.0.as_str());
+        let (mut ca, mut cr, mut oa, mut or) = (vec![], vec![], vec![], vec![]);
+        for c in cancels {
+            if self.refuse_cancels || by_cid(&c.key.cid) {
+                cr.push(RiskRefused::new(c, "script"))
+            } else {
+                ca.push(RiskApproved::new(c))
+            }
+        }
+        for o in opens {
+            if self.refuse_opens || by_cid(&o.key.cid) {
+                or.push(RiskRefused::new(o, "script"))
+            } else {
+                oa.push(RiskApproved::new(o))
+            }
+        }
+        (ca, oa, cr, or)
+    }
+}
+
+type XEngine<T> = Engine<ScriptClock, EState, MultiExchangeTxMap<T>, XStrategy, XRisk>;
+type XAudit = EngineAudit<Event, EngineOutput<u32, ExchangeId>>;
+
+/// the execution links of one tick: scripted (`ScriptTx`, all four fault modes) or the REAL production
+/// link type `UnboundedTx<ExecutionRequest>` (healthy = receiver held by the harness, closed =
+/// receiver dropped, `None` entry; a recoverable send error does not exist for this type)
+enum LinkSet {
+    Script(Vec<Option<ScriptTx>>),
+    Real(Vec<Option<UnboundedRx<ExecutionRequest>>>),
+}
+impl LinkSet {
+    /// everything delivered, per exchange index
+    fn logs(&mut self) -> Vec<Vec<ExecutionRequest>> {
+        match self {
+            LinkSet::Script(txs) => txs.iter().map(|t| t.as_ref().map(|t| t.take()).unwrap_or_default()).collect(),
+            LinkSet::Real(rxs) => rxs
+                .iter_mut()
+                .map(|rx| {
+                    let mut v = Vec::new();
+                    if let Some(rx) = rx {
+                        while let Ok(r) = rx.rx.try_recv() {
+                            v.push(r);
+                        }
+                    }
+                    v
+                })
+                .collect(),
+        }
+    }
+}
+
+/// what one transition executes on the freshly closed engine
+enum Job {
+    Process(Event),
+    Direct,
+}
+enum Done {
+    Audit(XAudit),
+    Algo(GenerateAlgoOrdersOutput),
+}
+fn exec<T>(engine: &mut XEngine<T>, job: &Job) -> Result<Done, ()>
+where
+    T: Tx<Item = ExecutionRequest> + std::fmt::Debug,
+    MultiExchangeTxMap<T>: ExecutionTxMap<ExchangeIndex, InstrumentIndex>,
+{
+    crate::core::guarded(|| match job {
+        Job::Process(ev) => Done::Audit(engine.process(ev.clone())),
+        Job::Direct => Done::Algo(GenerateAlgoOrders::<ExchangeIndex, InstrumentIndex>::generate_algo_orders(engine)),
+    })
 }
 
 // ------------------------------------------------------------------------------------------------
@@ -177,6 +360,26 @@ pub enum Ev {
     CmdClose(Filt),
     CmdCancelOrders(Filt),
     Shutdown,
+    // ---- probe events (executed and judged in every state, but without successor: see `is_probe`)
+    /// `AccountStreamEvent::Reconnecting(exchange)`
+    AcctReconnecting(usize),
+    /// `MarketStreamEvent::Reconnecting(exchange)`
+    MktReconnecting(usize),
+    /// `AccountEventKind::BalanceSnapshot` for the asset with this index
+    Balance(usize),
+    /// full `AccountEventKind::Snapshot` of one exchange: balances of its assets + one new open order per instrument
+    AcctSnapshot(usize),
+    /// `AccountEventKind::OrderCancelled` response for a tracked order (true = Ok(Cancelled), false = Err(rejected))
+    CancelResp(RC, bool),
+    /// market `DataKind::OrderBookL1` for the instrument
+    MarketL1(usize),
+}
+impl Ev {
+    /// Probe events widen the input alphabet of the "while disabled" rules (no strategy request on ANY
+    /// event kind; the state keeps updating on EVERY event kind) without multiplying the state space.
+    fn is_probe(&self) -> bool {
+        matches!(self, Ev::AcctReconnecting(_) | Ev::MktReconnecting(_) | Ev::Balance(_) | Ev::AcctSnapshot(_) | Ev::CancelResp(..) | Ev::MarketL1(_))
+    }
 }
 #[derive(Debug, Clone, PartialEq, Eq, Hash, Serialize, Deserialize)]
 pub struct Act {
@@ -189,6 +392,15 @@ pub struct Act {
     refuse_cancels: bool,
     /// fault mode of every exchange link for this tick
     links: Vec<Option<TxMode>>,
+    /// client order ids the risk manager refuses individually (partial refusal inside one batch)
+    #[serde(default)]
+    refuse_cids: Vec<String>,
+    /// cancels the strategy adds to its answer to a `ClosePositions` command
+    #[serde(default)]
+    close_cancels: Vec<RC>,
+    /// true = the links are real `UnboundedTx<ExecutionRequest>` channels instead of `ScriptTx`
+    #[serde(default)]
+    real: bool,
 }
 
 fn open_req(r: &RO) -> OrderRequestOpen<ExchangeIndex, InstrumentIndex> {
@@ -218,6 +430,14 @@ fn cancel_req(r: &RC) -> OrderRequestCancel<ExchangeIndex, InstrumentIndex> {
         },
         state: RequestCancel { id: r.id.as_ref().map(OrderId::new) },
     }
+}
+
+fn balance_of(k: usize) -> AssetBalance<AssetIndex> {
+    AssetBalance { asset: AssetIndex(k), balance: Balance { total: Decimal::from(10 + k as i64), free: Decimal::from(5) }, time_exchange: t_plus(1) }
+}
+/// cid of the order a full account snapshot reports for instrument `i`
+fn snapshot_cid(i: usize) -> String {
+    format!("s{i}")
 }
 
 /// (is_open, exchange index, instrument index, cid) of an execution request
@@ -308,6 +528,11 @@ pub struct Cov {
     enabling_event_generations: AtomicU64,
     commands_while_disabled: AtomicU64,
     oracle_evaluations: AtomicU64,
+    real_channel_ticks: AtomicU64,
+    probe_ticks: AtomicU64,
+    disabled_probe_updates_changed_state: AtomicU64,
+    close_positions_cancels: AtomicU64,
+    recoverable_only_ticks_checked: AtomicU64,
 }
 fn bump(a: &AtomicU64) {
     a.fetch_add(1, Ordering::Relaxed);
@@ -344,7 +569,8 @@ impl M {
             assert_eq!(ins.value.exchange.key.index(), want_ex, "instrument layout");
         }
         let home = (0..n_ex).map(|e| e + 1).collect();
-        Self { n_ex, instruments, home, fill_ins: vec![0, 2], max_tracked, cov: Cov::default() }
+        let n_ins = instruments.instruments().len();
+        Self { n_ex, instruments, home, fill_ins: [0usize, 2].into_iter().filter(|i| *i < n_ins).collect(), max_tracked, cov: Cov::default() }
     }
 
     fn ex_of_ins(&self, ins: usize) -> usize {
@@ -422,6 +648,79 @@ impl M {
             Ev::CmdClose(f) => EngineEvent::Command(Command::ClosePositions(self.filter(f))),
             Ev::CmdCancelOrders(f) => EngineEvent::Command(Command::CancelOrders(self.filter(f))),
             Ev::Shutdown => EngineEvent::Shutdown(Shutdown),
+            Ev::AcctReconnecting(e) => EngineEvent::Account(AccountStreamEvent::Reconnecting(self.exchange_id(*e))),
+            Ev::MktReconnecting(e) => EngineEvent::Market(MarketStreamEvent::Reconnecting(self.exchange_id(*e))),
+            Ev::Balance(k) => EngineEvent::Account(AccountStreamEvent::Item(AccountEvent {
+                exchange: ExchangeIndex(self.ex_of_asset(*k)),
+                kind: AccountEventKind::BalanceSnapshot(Snapshot(balance_of(*k))),
+            })),
+            Ev::AcctSnapshot(e) => {
+                let balances = (0..self.instruments.assets().len()).filter(|k| self.ex_of_asset(*k) == *e).map(balance_of).collect();
+                let instruments = (0..self.instruments.instruments().len())
+                    .filter(|i| self.ex_of_ins(*i) == *e)
+                    .map(|i| InstrumentAccountSnapshot {
+                        instrument: InstrumentIndex(i),
+                        orders: vec![Order {
+                            key: OrderKey {
+                                exchange: ExchangeIndex(*e),
+                                instrument: InstrumentIndex(i),
+                                strategy: strategy_id(),
+                                cid: ClientOrderId::new(snapshot_cid(i)),
+                            },
+                            side: Side::Buy,
+                            price: Decimal::from(100),
+                            quantity: Decimal::ONE,
+                            kind: OrderKind::Limit,
+                            time_in_force: TimeInForce::GoodUntilCancelled { post_only: false },
+                            state: OrderState::active(Open { id: OrderId::new(format!("x-{}", snapshot_cid(i))), time_exchange: t_plus(1), filled_quantity: Decimal::ZERO }),
+                        }],
+                    })
+                    .collect();
+                EngineEvent::Account(AccountStreamEvent::Item(AccountEvent {
+                    exchange: ExchangeIndex(*e),
+                    kind: AccountEventKind::Snapshot(AccountSnapshot { exchange: ExchangeIndex(*e), balances, instruments }),
+                }))
+            }
+            Ev::CancelResp(rc, ok) => EngineEvent::Account(AccountStreamEvent::Item(AccountEvent {
+                exchange: ExchangeIndex(rc.ex),
+                kind: AccountEventKind::OrderCancelled(OrderEvent {
+                    key: OrderKey {
+                        exchange: ExchangeIndex(rc.ex),
+                        instrument: InstrumentIndex(rc.ins),
+                        strategy: strategy_id(),
+                        cid: ClientOrderId::new(rc.cid.as_str()),
+                    },
+                    state: if *ok {
+                        Ok(Cancelled { id: OrderId::new(format!("x-{}", rc.cid)), time_exchange: t_plus(2) })
+                    } else {
+                        Err(OrderError::Rejected(ApiError::OrderAlreadyCancelled))
+                    },
+                }),
+            })),
+            Ev::MarketL1(i) => EngineEvent::Market(MarketStreamEvent::Item(MarketEvent {
+                time_exchange: t_plus(1),
+                time_received: t_plus(1),
+                exchange: self.exchange_id(self.ex_of_ins(*i)),
+                instrument: InstrumentIndex(*i),
+                kind: DataKind::OrderBookL1(OrderBookL1 {
+                    last_update_time: t_plus(1),
+                    best_bid: Some(Level { price: Decimal::from(99), amount: Decimal::ONE }),
+                    best_ask: Some(Level { price: Decimal::from(101), amount: Decimal::ONE }),
+                }),
+            })),
+        }
+    }
+    /// exchange index of the asset with this index
+    fn ex_of_asset(&self, k: usize) -> usize {
+        let ex = self.instruments.assets()[k].value.exchange;
+        self.instruments.exchanges().iter().position(|e| e.value == ex).expect("asset exchange")
+    }
+    /// cids the input event itself addresses (order snapshots, cancel responses, account snapshots)
+    fn touched(&self, ev: &Ev) -> Vec<(usize, String)> {
+        match ev {
+            Ev::SnapOpen(rc) | Ev::SnapCancelled(rc) | Ev::CancelResp(rc, _) => vec![(rc.ins, rc.cid.clone())],
+            Ev::AcctSnapshot(e) => (0..self.instruments.instruments().len()).filter(|i| self.ex_of_ins(*i) == *e).map(|i| (i, snapshot_cid(i))).collect(),
+            _ => vec![],
         }
     }
     fn filter(&self, f: &Filt) -> InstrumentFilter {
@@ -467,10 +766,12 @@ impl M {
                 v.push((vec![o(e, self.home[e], 0)], vec![]));
             }
             v.push((vec![o(self.n_ex, 0, 0)], vec![])); // exchange index out of range
-            v.push((vec![o(1, 0, 0)], vec![])); // exchange named in the request != instrument's home exchange
+            if self.n_ex >= 2 {
+                v.push((vec![o(1, 0, 0)], vec![])); // exchange named in the request != instrument's home exchange
+            }
         }
         if can2 {
-            v.push((vec![o(0, self.home[0], 0), o(1, self.home[1], 1)], vec![]));
+            v.push((self.two_opens(&free[0], &free[1]), vec![]));
         }
         for t in targets {
             v.push((vec![], vec![t.clone()]));
@@ -483,6 +784,15 @@ impl M {
             }
         }
         v
+    }
+
+    /// two opens of one batch: on two exchanges (on the two instruments of the only exchange if there is one)
+    fn two_opens(&self, c0: &str, c1: &str) -> Vec<RO> {
+        if self.n_ex >= 2 {
+            vec![RO { ex: 0, ins: self.home[0], cid: c0.to_string() }, RO { ex: 1, ins: self.home[1], cid: c1.to_string() }]
+        } else {
+            vec![RO { ex: 0, ins: 1, cid: c0.to_string() }, RO { ex: 0, ins: 0, cid: c1.to_string() }]
+        }
     }
 
     /// all link-mode vectors that differ on the `addressed` exchanges (others healthy)
@@ -503,18 +813,46 @@ impl M {
     }
 }
 
-fn risk_variants(opens: &[RO], cancels: &[RC]) -> Vec<(bool, bool)> {
-    let mut v = vec![(false, false)];
+/// risk verdicts: (refuse all opens, refuse all cancels, individually refused cids)
+fn risk_variants(opens: &[RO], cancels: &[RC]) -> Vec<(bool, bool, Vec<String>)> {
+    let mut v = vec![(false, false, vec![])];
     if !opens.is_empty() {
-        v.push((true, false));
+        v.push((true, false, vec![]));
     }
     if !cancels.is_empty() {
-        v.push((false, true));
+        v.push((false, true, vec![]));
     }
     if !opens.is_empty() && !cancels.is_empty() {
-        v.push((true, true));
+        v.push((true, true, vec![]));
+    }
+    // partial refusal inside one batch of opens: approved and refused requests side by side
+    if opens.len() >= 2 {
+        v.push((false, false, vec![opens[0].cid.clone()]));
+        v.push((false, false, vec![opens[1].cid.clone()]));
     }
     v
+}
+/// exchanges addressed by the requests of a proposal that the risk manager lets through
+fn approved_exchanges(opens: &[RO], cancels: &[RC], ro: bool, rc: bool, cids: &[String]) -> BTreeSet<usize> {
+    let mut addr = BTreeSet::new();
+    if !ro {
+        addr.extend(opens.iter().filter(|o| !cids.contains(&o.cid)).map(|o| o.ex));
+    }
+    if !rc {
+        addr.extend(cancels.iter().filter(|c| !cids.contains(&c.cid)).map(|c| c.ex));
+    }
+    addr
+}
+/// one input event of the alphabet: symbol, number of fresh cids it consumes, exchanges its own requests
+/// address, cancels the strategy adds to a ClosePositions answer
+struct EvSpec {
+    ev: Ev,
+    used: usize,
+    addr: BTreeSet<usize>,
+    close_cancels: Vec<RC>,
+}
+fn spec(ev: Ev, used: usize, addr: BTreeSet<usize>) -> EvSpec {
+    EvSpec { ev, used, addr, close_cancels: vec![] }
 }
 
 impl M {
@@ -535,83 +873,140 @@ impl M {
             targets.push(M::rc_of(t.0, &t.1, &t.2));
         }
 
-        // ---- events: (symbol, number of fresh cids it consumes, exchanges its own requests address)
+        // ---- events
         let all_ex: BTreeSet<usize> = (0..self.n_ex).collect();
-        let mut events: Vec<(Ev, usize, BTreeSet<usize>)> = Vec::new();
-        for i in [0usize, 2] {
-            events.push((Ev::Market(i), 0, BTreeSet::new()));
+        let mut events: Vec<EvSpec> = Vec::new();
+        let market_ins: Vec<usize> = [0usize, 2].into_iter().filter(|i| *i < es.instruments.0.len()).collect();
+        for &i in &market_ins {
+            events.push(spec(Ev::Market(i), 0, BTreeSet::new()));
         }
         for &i in &self.fill_ins {
             if es.instruments.0.get_index(i).map(|(_, s)| s.position.current.is_none()).unwrap_or(false) {
-                events.push((Ev::Fill(i), 0, BTreeSet::new()));
+                events.push(spec(Ev::Fill(i), 0, BTreeSet::new()));
             }
         }
         // (an order naming an unknown exchange can only be tracked by a defective engine; no snapshot for it)
         for t in targets.iter().filter(|t| t.ex < self.n_ex) {
-            events.push((Ev::SnapOpen(t.clone()), 0, BTreeSet::new()));
-            events.push((Ev::SnapCancelled(t.clone()), 0, BTreeSet::new()));
+            events.push(spec(Ev::SnapOpen(t.clone()), 0, BTreeSet::new()));
+            events.push(spec(Ev::SnapCancelled(t.clone()), 0, BTreeSet::new()));
         }
-        events.push((Ev::Trading(true), 0, BTreeSet::new()));
-        events.push((Ev::Trading(false), 0, BTreeSet::new()));
+        events.push(spec(Ev::Trading(true), 0, BTreeSet::new()));
+        events.push(spec(Ev::Trading(false), 0, BTreeSet::new()));
         if room >= 1 && !free.is_empty() {
             let o = |ex: usize, ins: usize, k: usize| RO { ex, ins, cid: free[k].clone() };
             for e in 0..self.n_ex {
-                events.push((Ev::CmdOpen(vec![o(e, self.home[e], 0)]), 1, [e].into()));
+                events.push(spec(Ev::CmdOpen(vec![o(e, self.home[e], 0)]), 1, [e].into()));
             }
-            events.push((Ev::CmdOpen(vec![o(self.n_ex, 0, 0)]), 1, BTreeSet::new()));
-            events.push((Ev::CmdOpen(vec![o(1, 0, 0)]), 1, [1].into()));
+            events.push(spec(Ev::CmdOpen(vec![o(self.n_ex, 0, 0)]), 1, BTreeSet::new()));
+            if self.n_ex >= 2 {
+                events.push(spec(Ev::CmdOpen(vec![o(1, 0, 0)]), 1, [1].into()));
+            }
             if room >= 2 && free.len() >= 2 {
-                events.push((Ev::CmdOpen(vec![o(0, self.home[0], 0), o(1, self.home[1], 1)]), 2, [0, 1].into()));
+                let two = self.two_opens(&free[0], &free[1]);
+                let addr = two.iter().map(|o| o.ex).collect();
+                events.push(spec(Ev::CmdOpen(two), 2, addr));
+            }
+        }
+        // the cid of a tracked order opened once more on ANOTHER instrument (client order ids are unique per
+        // instrument only): later cancels / snapshots of one of the twins must leave the other alone
+        if let Some(t) = targets.first().filter(|t| room >= 1 && POOL.contains(&t.cid.as_str())) {
+            let e = (self.ex_of_ins(t.ins) + 1) % self.n_ex;
+            if !tr.iter().any(|x| x.0 == self.home[e] && x.1 == t.cid) {
+                events.push(spec(Ev::CmdOpen(vec![RO { ex: e, ins: self.home[e], cid: t.cid.clone() }]), 0, [e].into()));
             }
         }
         for t in &targets {
-            events.push((Ev::CmdCancel(vec![t.clone()]), 0, [t.ex].into()));
+            events.push(spec(Ev::CmdCancel(vec![t.clone()]), 0, [t.ex].into()));
         }
         if targets.len() == 2 {
-            events.push((Ev::CmdCancel(targets.clone()), 0, targets.iter().map(|t| t.ex).collect()));
+            events.push(spec(Ev::CmdCancel(targets.clone()), 0, targets.iter().map(|t| t.ex).collect()));
         }
-        events.push((Ev::CmdCancel(vec![RC { ex: 0, ins: 0, cid: "zz".into(), id: None }]), 0, [0].into()));
-        events.push((Ev::CmdClose(Filt::All), 0, all_ex.clone()));
-        events.push((Ev::CmdClose(Filt::Ex(1)), 0, all_ex.clone()));
-        events.push((Ev::CmdCancelOrders(Filt::All), 0, all_ex.clone()));
-        events.push((Ev::CmdCancelOrders(Filt::Ins(0)), 0, all_ex.clone()));
-        events.push((Ev::Shutdown, 0, BTreeSet::new()));
+        events.push(spec(Ev::CmdCancel(vec![RC { ex: 0, ins: 0, cid: "zz".into(), id: None }]), 0, [0].into()));
+        events.push(spec(Ev::CmdClose(Filt::All), 0, all_ex.clone()));
+        events.push(spec(Ev::CmdClose(Filt::Ex(1)), 0, all_ex.clone()));
+        // ClosePositions answered by the strategy with market orders AND a cancel (of a tracked order / of an
+        // untracked id): link modes vary on the exchanges such a tick really addresses
+        {
+            let closing = |f: &Filt| -> BTreeSet<usize> {
+                es.instruments.0.values().enumerate()
+                    .filter(|(i, st)| st.position.current.is_some() && st.data.price().is_some() && self.filt_matches(f, *i))
+                    .map(|(i, _)| self.ex_of_ins(i))
+                    .collect()
+            };
+            // (not the order of an earlier ClosePositions: the closing market order of this very tick re-uses
+            // its deterministic cid, and one tick cancelling and re-opening one cid is outside the alphabet)
+            for t in targets.iter().filter(|t| !t.cid.starts_with("close-")) {
+                let mut addr = closing(&Filt::All);
+                addr.insert(t.ex);
+                events.push(EvSpec { ev: Ev::CmdClose(Filt::All), used: 0, addr, close_cancels: vec![t.clone()] });
+            }
+            let mut addr = closing(&Filt::Ex(1));
+            addr.insert(0);
+            events.push(EvSpec { ev: Ev::CmdClose(Filt::Ex(1)), used: 0, addr, close_cancels: vec![RC { ex: 0, ins: 0, cid: "zc".into(), id: None }] });
+        }
+        events.push(spec(Ev::CmdCancelOrders(Filt::All), 0, all_ex.clone()));
+        events.push(spec(Ev::CmdCancelOrders(Filt::Ins(0)), 0, all_ex.clone()));
+        events.push(spec(Ev::Shutdown, 0, BTreeSet::new()));
+        // probe events (no successor): the remaining event kinds of the engine's input alphabet
+        for e in 0..self.n_ex {
+            events.push(spec(Ev::AcctReconnecting(e), 0, BTreeSet::new()));
+            events.push(spec(Ev::MktReconnecting(e), 0, BTreeSet::new()));
+            events.push(spec(Ev::AcctSnapshot(e), 0, BTreeSet::new()));
+        }
+        events.push(spec(Ev::Balance(0), 0, BTreeSet::new()));
+        events.push(spec(Ev::Balance(self.instruments.assets().len() - 1), 0, BTreeSet::new()));
+        for t in targets.iter().filter(|t| t.ex < self.n_ex) {
+            events.push(spec(Ev::CancelResp(t.clone(), true), 0, BTreeSet::new()));
+            events.push(spec(Ev::CancelResp(t.clone(), false), 0, BTreeSet::new()));
+        }
+        for &i in &market_ins {
+            events.push(spec(Ev::MarketL1(i), 0, BTreeSet::new()));
+        }
 
         let mut acts = Vec::new();
-        for (ev, used, ev_addr) in events {
+        for EvSpec { ev, used, addr: ev_addr, close_cancels } in events {
             let is_cmd = matches!(ev, Ev::CmdOpen(_) | Ev::CmdCancel(_) | Ev::CmdClose(_) | Ev::CmdCancelOrders(_));
+            let probe = ev.is_probe();
             let enabled_after = match ev {
                 Ev::Trading(b) => b,
                 _ => enabled,
             };
             // full strategy menu where generation is the subject of the tick
-            let full = enabled_after && !is_cmd && !matches!(ev, Ev::Shutdown);
+            let full = enabled_after && !is_cmd && !probe && !matches!(ev, Ev::Shutdown);
+            // the REAL channel type is driven on the command send path (SendOpen/SendCancelRequests), on the
+            // enabling event and on the direct generate_algo_orders() calls below (the link type is
+            // independent of the kind of event that precedes generation)
+            let with_real = matches!(ev, Ev::CmdOpen(_) | Ev::CmdCancel(_) | Ev::Trading(true));
             let free_s = &free[used.min(free.len())..];
             let room_s = room.saturating_sub(used);
             // next to a command the strategy does not cancel tracked orders: the command may issue the
             // identical cancel and the two would be indistinguishable in the link logs
             let tg: &[RC] = if is_cmd { &[] } else { &targets };
             for (opens, cancels) in self.menus(tg, free_s, room_s, full) {
-                let risks = if full { risk_variants(&opens, &cancels) } else { vec![(false, false)] };
-                for (ro, rc) in risks {
+                let risks = if full { risk_variants(&opens, &cancels) } else { vec![(false, false, vec![])] };
+                for (ro, rc, cids) in risks {
                     let mut addr = ev_addr.clone();
                     if enabled_after || enabled {
-                        if !ro {
-                            addr.extend(opens.iter().map(|o| o.ex));
-                        }
-                        if !rc {
-                            addr.extend(cancels.iter().map(|c| c.ex));
-                        }
+                        addr.extend(approved_exchanges(&opens, &cancels, ro, rc, &cids));
                     }
-                    for links in self.link_vectors(&addr) {
-                        acts.push(Act {
+                    // probe events: healthy links only (the send path is not their subject)
+                    let vectors = if probe { vec![vec![Some(TxMode::Healthy); self.n_ex]] } else { self.link_vectors(&addr) };
+                    for links in vectors {
+                        let act = Act {
                             ev: Some(ev.clone()),
                             opens: opens.clone(),
                             cancels: cancels.clone(),
                             refuse_opens: ro,
                             refuse_cancels: rc,
                             links,
-                        });
+                            refuse_cids: cids.clone(),
+                            close_cancels: close_cancels.clone(),
+                            real: false,
+                        };
+                        if with_real && !addr.is_empty() && !act.links.contains(&Some(TxMode::Unhealthy)) {
+                            acts.push(Act { real: true, ..act.clone() });
+                        }
+                        acts.push(act);
                     }
                 }
             }
@@ -623,23 +1018,24 @@ impl M {
                 if opens.is_empty() && cancels.is_empty() {
                     continue;
                 }
-                for (ro, rc) in risk_variants(&opens, &cancels) {
-                    let mut addr = BTreeSet::new();
-                    if !ro {
-                        addr.extend(opens.iter().map(|o| o.ex));
-                    }
-                    if !rc {
-                        addr.extend(cancels.iter().map(|c| c.ex));
-                    }
+                for (ro, rc, cids) in risk_variants(&opens, &cancels) {
+                    let addr = approved_exchanges(&opens, &cancels, ro, rc, &cids);
                     for links in self.link_vectors(&addr) {
-                        acts.push(Act {
+                        let act = Act {
                             ev: None,
                             opens: opens.clone(),
                             cancels: cancels.clone(),
                             refuse_opens: ro,
                             refuse_cancels: rc,
                             links,
-                        });
+                            refuse_cids: cids.clone(),
+                            close_cancels: vec![],
+                            real: false,
+                        };
+                        if !addr.is_empty() && !act.links.contains(&Some(TxMode::Unhealthy)) {
+                            acts.push(Act { real: true, ..act.clone() });
+                        }
+                        acts.push(act);
                     }
                 }
             }
@@ -782,8 +1178,8 @@ struct Obs<'a> {
     post: &'a EState,
     logs: Vec<Vec<ExecutionRequest>>,
     links: &'a [Option<TxMode>],
-    /// cids the input event itself addresses (order snapshots)
-    touched: Vec<String>,
+    /// orders (instrument index, cid) the input event itself addresses (order snapshots, cancel responses)
+    touched: Vec<(usize, String)>,
 }
 impl Obs<'_> {
     fn n_right(&self, r: &ExecutionRequest) -> usize {
@@ -793,44 +1189,47 @@ impl Obs<'_> {
     fn n_total(&self, r: &ExecutionRequest) -> usize {
         self.logs.iter().map(|l| l.iter().filter(|x| *x == r).count()).sum()
     }
-    /// Some(description) if `r` (which must not have been delivered) left a mark on any instrument
+    /// Some(description) if `r` (which must not have been delivered) left a mark on the order it addresses
+    /// (a change of any OTHER order - same cid on another instrument included - is the frame rule's subject)
     fn marked(&self, r: &ExecutionRequest, rep: &Reports) -> Option<String> {
-        let (is_open, _, _, cid) = parts(r);
-        if self.touched.contains(&cid) {
+        let (is_open, _, ins, cid) = parts(r);
+        if self.touched.contains(&(ins, cid.clone())) {
             return None;
         }
         // the same order legitimately opened / cancelled by another (sent) request of this tick
-        if rep.sent.iter().any(|(_, s)| parts(s).0 == is_open && parts(s).3 == cid) {
+        if rep.sent.iter().any(|(_, s)| parts(s).0 == is_open && parts(s).2 == ins && parts(s).3 == cid) {
             return None;
         }
-        for i in 0..self.pre.instruments.0.len() {
-            let (a, b) = (order_of(self.pre, i, &cid), order_of(self.post, i, &cid));
-            if a != b {
-                return Some(format!("order {cid} on instrument {i}: {} -> {}", state_name(a), state_name(b)));
-            }
+        let (a, b) = (order_of(self.pre, ins, &cid), order_of(self.post, ins, &cid));
+        if a != b {
+            return Some(format!("order {cid} on instrument {ins}: {} -> {}", state_name(a), state_name(b)));
         }
         None
     }
-    /// Frame rule ("... and no other order changed"): an order whose cid is addressed neither by the input
-    /// event nor by any request proposed, commanded, reported or delivered in this tick is unchanged.
+    /// Frame rule ("... and no other order changed"): an order (instrument, cid) addressed neither by the
+    /// input event nor by any request proposed, commanded, reported or delivered in this tick is unchanged.
+    /// Orders are identified by instrument AND cid: client order ids are only unique per instrument.
     fn frame(&self, rep: &Reports, extra: &[ExecutionRequest], out: &mut Vec<Viol>) {
-        let mut addressed: Vec<String> = self.touched.clone();
-        addressed.extend(extra.iter().map(|r| parts(r).3));
-        addressed.extend(rep.sent.iter().map(|(_, r)| parts(r).3));
-        addressed.extend(rep.failed.iter().map(|(_, r, _)| parts(r).3));
-        addressed.extend(rep.refused.iter().map(|r| parts(r).3));
-        addressed.extend(self.logs.iter().flatten().map(|r| parts(r).3));
+        let key = |r: &ExecutionRequest| (parts(r).2, parts(r).3);
+        let mut addressed: Vec<(usize, String)> = self.touched.clone();
+        addressed.extend(extra.iter().map(key));
+        addressed.extend(rep.sent.iter().map(|(_, r)| key(r)));
+        addressed.extend(rep.failed.iter().map(|(_, r, _)| key(r)));
+        addressed.extend(rep.refused.iter().map(key));
+        addressed.extend(self.logs.iter().flatten().map(key));
         let mut keys: Vec<(usize, String)> = tracked(self.pre).into_iter().map(|t| (t.0, t.1)).collect();
         keys.extend(tracked(self.post).into_iter().map(|t| (t.0, t.1)));
         keys.sort();
         keys.dedup();
         for (i, cid) in keys {
-            if addressed.contains(&cid) {
+            if addressed.contains(&(i, cid.clone())) {
                 continue;
             }
             let (a, b) = (order_of(self.pre, i, &cid), order_of(self.post, i, &cid));
             if a != b {
-                out.push(("C03/frame/unaddressed-order-changed".into(), format!("order {cid} on instrument {i} was addressed by nothing in this tick but changed {} -> {}", state_name(a), state_name(b))));
+                let twin = addressed.iter().any(|(_, c)| *c == cid);
+                let cause = if twin { "same-cid-on-other-instrument-changed" } else { "unaddressed-order-changed" };
+                out.push((format!("C03/frame/{cause}"), format!("order {cid} on instrument {i} was addressed by nothing in this tick but changed {} -> {}", state_name(a), state_name(b))));
                 return;
             }
         }
@@ -846,7 +1245,7 @@ impl Obs<'_> {
             }
         } else {
             // only "the tracked order it cancels": tracked before and not addressed by the input event
-            if order_of(self.pre, ins, &cid).is_none() || self.touched.contains(&cid) {
+            if order_of(self.pre, ins, &cid).is_none() || self.touched.contains(&(ins, cid.clone())) {
                 return None;
             }
             match post.map(|o| &o.state) {
@@ -883,6 +1282,15 @@ fn check_reports(obs: &Obs, rep: &Reports, has_audit: bool, out: &mut Vec<Viol>)
         } else {
             Some("also-delivered-to-other-link")
         };
+        // "exactly once": no issuer of this alphabet proposes / commands the same request twice in one tick,
+        // so one issuer reporting (and delivering) it twice has issued a duplicate
+        let by_same_src = rep.sent.iter().filter(|(s, x)| s == src && x == r).count();
+        if cause.is_none() && by_same_src > 1 {
+            out.push((
+                "C03/sent-delivered-once/issued-more-than-once".into(),
+                format!("{} reported (and delivered) {by_same_src}x in one tick: {r:?}", src.s()),
+            ));
+        }
         if let Some(cause) = cause {
             out.push((
                 format!("C03/sent-delivered-once/{cause}"),
@@ -979,37 +1387,84 @@ fn ev_kind(ev: &Ev) -> &'static str {
         Ev::CmdClose(_) => "close-positions",
         Ev::CmdCancelOrders(_) => "cancel-orders",
         Ev::Shutdown => "shutdown",
+        Ev::AcctReconnecting(_) => "account-reconnecting",
+        Ev::MktReconnecting(_) => "market-reconnecting",
+        Ev::Balance(_) => "account-balance-snapshot",
+        Ev::AcctSnapshot(_) => "account-full-snapshot",
+        Ev::CancelResp(..) => "account-cancel-response",
+        Ev::MarketL1(_) => "market-l1",
     }
 }
 
 impl M {
-    fn strategy_for(&self, a: &Act) -> (ScriptStrategy, ScriptRisk) {
-        let strategy = ScriptStrategy {
+    fn strategy_for(&self, a: &Act) -> (XStrategy, XRisk) {
+        let strategy = XStrategy {
             opens: a.opens.iter().map(open_req).collect(),
             cancels: a.cancels.iter().map(cancel_req).collect(),
+            close_cancels: a.close_cancels.iter().map(cancel_req).collect(),
             ..Default::default()
         };
-        (strategy, ScriptRisk { refuse_opens: a.refuse_opens, refuse_cancels: a.refuse_cancels })
+        (strategy, XRisk { refuse_opens: a.refuse_opens, refuse_cancels: a.refuse_cancels, refuse_cids: a.refuse_cids.clone() })
     }
 
-    fn logs(txs: &[Option<ScriptTx>]) -> Vec<Vec<ExecutionRequest>> {
-        txs.iter().map(|t| t.as_ref().map(|t| t.take()).unwrap_or_default()).collect()
+    /// Close the real engine around `pre` with the seams of this tick (scripted or real links), run the job.
+    /// Returns (result | Err = the code under test panicked, state after, deliveries per exchange index).
+    fn run_job(&self, pre: &EState, a: &Act, job: &Job) -> (Result<Done, ()>, EState, Vec<Vec<ExecutionRequest>>) {
+        let (strategy, risk) = self.strategy_for(a);
+        let mode = |i: usize| a.links.get(i).copied().unwrap_or(Some(TxMode::Healthy));
+        let exchanges = self.instruments.exchanges();
+        if a.real {
+            bump(&self.cov.real_channel_ticks);
+            let mut rxs = Vec::new();
+            let mut txs: Vec<(ExchangeId, Option<UnboundedTx<ExecutionRequest>>)> = Vec::new();
+            for (i, ex) in exchanges.iter().enumerate() {
+                match mode(i) {
+                    None => {
+                        txs.push((ex.value, None));
+                        rxs.push(None);
+                    }
+                    Some(TxMode::Healthy) => {
+                        let (tx, rx) = mpsc_unbounded();
+                        txs.push((ex.value, Some(tx)));
+                        rxs.push(Some(rx));
+                    }
+                    Some(TxMode::Closed) => {
+                        let (tx, rx) = mpsc_unbounded::<ExecutionRequest>();
+                        drop(rx);
+                        txs.push((ex.value, Some(tx)));
+                        rxs.push(None);
+                    }
+                    Some(TxMode::Unhealthy) => panic!("C03: the real channel type has no recoverable send error"),
+                }
+            }
+            let mut engine: XEngine<UnboundedTx<ExecutionRequest>> =
+                Engine::new(ScriptClock::default(), pre.clone(), MultiExchangeTxMap::from_iter(txs), strategy, risk);
+            let res = exec(&mut engine, job);
+            let mut links = LinkSet::Real(rxs);
+            let logs = links.logs();
+            (res, engine.state, logs)
+        } else {
+            let txs: Vec<(ExchangeId, Option<ScriptTx>)> =
+                exchanges.iter().enumerate().map(|(i, ex)| (ex.value, mode(i).map(ScriptTx::new))).collect();
+            let map = MultiExchangeTxMap::from_iter(txs.iter().map(|(e, t)| (*e, t.clone())));
+            let mut engine: XEngine<ScriptTx> = Engine::new(ScriptClock::default(), pre.clone(), map, strategy, risk);
+            let res = exec(&mut engine, job);
+            let mut links = LinkSet::Script(txs.into_iter().map(|(_, t)| t).collect());
+            let logs = links.logs();
+            (res, engine.state, logs)
+        }
     }
 
     fn step_direct(&self, pre: &EState, a: &Act, out: &mut Vec<Viol>) {
-        let (strategy, risk) = self.strategy_for(a);
-        let (mut engine, txs) = mk_engine(&self.instruments, pre.clone(), &a.links, strategy, risk);
         bump(&self.cov.direct_calls);
-        let res = catch_unwind(AssertUnwindSafe(|| {
-            GenerateAlgoOrders::<ExchangeIndex, InstrumentIndex>::generate_algo_orders(&mut engine)
-        }));
-        let Ok(output) = res else {
+        let (res, post, logs) = self.run_job(pre, a, &Job::Direct);
+        let Ok(Done::Algo(output)) = res else {
             out.push(("C03/panic/generate-algo-orders".into(), "generate_algo_orders() panicked".into()));
             return;
         };
         let mut rep = Reports { algo_output: true, ..Default::default() };
         rep.add_algo(Src::Algo, &output);
-        let obs = Obs { pre, post: &engine.state, logs: M::logs(&txs), links: &a.links, touched: vec![] };
+        let obs = Obs { pre, post: &post, logs, links: &a.links, touched: vec![] };
         self.count(&rep);
         let flagged = check_reports(&obs, &rep, false, out);
         obs.frame(&rep, &self.proposals(a).into_iter().map(|p| p.0).collect::<Vec<_>>(), out);
@@ -1027,10 +1482,10 @@ impl M {
     fn proposals(&self, a: &Act) -> Vec<(ExecutionRequest, bool)> {
         let mut v: Vec<(ExecutionRequest, bool)> = Vec::new();
         for c in &a.cancels {
-            v.push((ExecutionRequest::Cancel(cancel_req(c)), a.refuse_cancels));
+            v.push((ExecutionRequest::Cancel(cancel_req(c)), a.refuse_cancels || a.refuse_cids.contains(&c.cid)));
         }
         for o in &a.opens {
-            v.push((ExecutionRequest::Open(open_req(o)), a.refuse_opens));
+            v.push((ExecutionRequest::Open(open_req(o)), a.refuse_opens || a.refuse_cids.contains(&o.cid)));
         }
         v
     }
@@ -1057,16 +1512,18 @@ impl M {
     }
 
     fn step_process(&self, pre: &EState, ev: &Ev, a: &Act, out: &mut Vec<Viol>) -> Option<EState> {
-        let (strategy, risk) = self.strategy_for(a);
-        let (mut engine, txs) = mk_engine(&self.instruments, pre.clone(), &a.links, strategy, risk);
         let event = self.event(ev, pre);
         bump(&self.cov.process_calls);
-        let res = catch_unwind(AssertUnwindSafe(|| engine.process(event.clone())));
-        let Ok(audit) = res else {
+        if ev.is_probe() {
+            bump(&self.cov.probe_ticks);
+        }
+        addn(&self.cov.close_positions_cancels, a.close_cancels.len());
+        let (res, post_state, logs) = self.run_job(pre, a, &Job::Process(event.clone()));
+        let Ok(Done::Audit(audit)) = res else {
             out.push((format!("C03/panic/process-{}", ev_kind(ev)), format!("Engine::process panicked on {ev:?}")));
             return None;
         };
-        let post = &engine.state;
+        let post = &post_state;
         let pre_enabled = pre.trading == TradingState::Enabled;
         let post_enabled = post.trading == TradingState::Enabled;
         let trading = if pre_enabled { "enabled" } else { "disabled" };
@@ -1086,14 +1543,15 @@ impl M {
                 }
             }
         }
-        let touched = match ev {
-            Ev::SnapOpen(rc) | Ev::SnapCancelled(rc) => vec![rc.cid.clone()],
-            _ => vec![],
-        };
-        let obs = Obs { pre, post, logs: M::logs(&txs), links: &a.links, touched };
+        let obs = Obs { pre, post, logs, links: &a.links, touched: self.touched(ev) };
         self.count(&rep);
         if rep.audit_errors > 0 {
             bump(&self.cov.terminal_ticks);
+            // "fatal": the audit of a tick that carries an unrecoverable error is terminal for the engine's
+            // run loops (`Terminal::is_terminal`, the very predicate sync_run / async_run stop on)
+            if !audit.is_terminal() {
+                out.push(("C03/fatal-failure/tick-not-terminal".into(), format!("{ev:?}: the audit carries {} unrecoverable error(s) but is_terminal() is false - the engine would carry on", rep.audit_errors)));
+            }
         }
 
         // ---- R1-R4 on everything reported
@@ -1105,7 +1563,60 @@ impl M {
                 Ev::CmdCancel(rs) => extra.extend(rs.iter().map(|r| ExecutionRequest::Cancel(cancel_req(r)))),
                 _ => {}
             }
+            extra.extend(a.close_cancels.iter().map(|r| ExecutionRequest::Cancel(cancel_req(r))));
             obs.frame(&rep, &extra, out);
+        }
+
+        // ---- R1 across ticks ("exactly once"): a delivery that nobody issued in THIS tick (not reported sent,
+        // not proposed by the strategy, not part of the command) and that opens an order already tracked /
+        // cancels an order already shown as cancel-in-flight is a second delivery of a request of an
+        // earlier tick (client order ids are unique per order and instrument)
+        {
+            let mut issued: Vec<ExecutionRequest> = self.proposals(a).into_iter().map(|p| p.0).collect();
+            match ev {
+                Ev::CmdOpen(rs) => issued.extend(rs.iter().map(|r| ExecutionRequest::Open(open_req(r)))),
+                Ev::CmdCancel(rs) => issued.extend(rs.iter().map(|r| ExecutionRequest::Cancel(cancel_req(r)))),
+                _ => {}
+            }
+            issued.extend(a.close_cancels.iter().map(|r| ExecutionRequest::Cancel(cancel_req(r))));
+            for d in obs.logs.iter().flatten() {
+                if rep.sent.iter().any(|(_, x)| x == d) || issued.contains(d) {
+                    continue;
+                }
+                let (is_open, _, ins, cid) = parts(d);
+                let again = match (is_open, order_of(pre, ins, &cid).map(|o| &o.state)) {
+                    (true, Some(_)) => true,
+                    (false, Some(ActiveOrderState::CancelInFlight(_))) => true,
+                    _ => false,
+                };
+                if again {
+                    out.push((format!("C03/sent-delivered-once/redelivered-in-later-tick/{}", kind_name(d)), format!("{ev:?}: {d:?} reached a link although nothing issued it in this tick and its order is already {}", state_name(order_of(pre, ins, &cid)))));
+                    break;
+                }
+            }
+        }
+
+        // ---- R3 converse: only a gone / absent / unknown link is fatal. When every link of the tick is present
+        // (healthy or merely unhealthy) and no request names an unknown exchange, no unrecoverable error can
+        // have arisen: the audit must not carry one (the engine must not stop on a recoverable send failure)
+        if rep.audit_errors > 0 {
+            let link_gone = a.links.iter().any(|l| matches!(l, None | Some(TxMode::Closed)));
+            let mut named: Vec<usize> = self.proposals(a).iter().map(|p| parts(&p.0).1).collect();
+            match ev {
+                Ev::CmdOpen(rs) => named.extend(rs.iter().map(|r| r.ex)),
+                Ev::CmdCancel(rs) => named.extend(rs.iter().map(|r| r.ex)),
+                _ => {}
+            }
+            named.extend(a.close_cancels.iter().map(|c| c.ex));
+            named.extend(rep.sent.iter().map(|(_, r)| parts(r).1));
+            named.extend(rep.failed.iter().map(|(_, r, _)| parts(r).1));
+            named.extend(tracked(pre).iter().map(|t| t.2.key.exchange.index()));
+            if !link_gone && named.iter().all(|e| *e < self.n_ex) {
+                bump(&self.cov.recoverable_only_ticks_checked);
+                out.push(("C03/recoverable-failure/tick-terminal".into(), format!("{ev:?}: every link is present (healthy / unhealthy) and every request names a known exchange, yet the audit carries {} unrecoverable error(s)", rep.audit_errors)));
+            }
+        } else if rep.failed.iter().any(|f| !f.2) {
+            bump(&self.cov.recoverable_only_ticks_checked);
         }
 
         // ---- trading state itself follows the update (needed to phrase R5/R6)
@@ -1130,7 +1641,9 @@ impl M {
         let disabling = !enabled_after && pre_enabled;
         let must_gen: Option<bool> = if !enabled_after {
             Some(false)
-        } else if is_cmd || matches!(ev, Ev::Shutdown) {
+        } else if is_cmd || matches!(ev, Ev::Shutdown | Ev::AcctReconnecting(_) | Ev::MktReconnecting(_)) {
+            // (a reconnect notice is not an "event" in the sense of R6: whether the strategy is consulted on
+            // it while enabled is not demanded)
             None
         } else {
             Some(true)
@@ -1251,6 +1764,11 @@ impl M {
                     }
                 }
                 Ev::CmdClose(f) => {
+                    // the cancels the strategy answered with are requests of the command: issued like those of
+                    // SendCancelRequests (healthy link => delivered once, in flight, reported; else failed)
+                    for r in &a.close_cancels {
+                        check_issued(&obs, &rep, &flagged, Src::Cmd, &ExecutionRequest::Cancel(cancel_req(r)), &rule, true, out);
+                    }
                     for (ins, (_, st)) in pre.instruments.0.iter().enumerate() {
                         let ex = self.ex_of_ins(ins);
                         if st.position.current.is_some() && st.data.price().is_some() && self.filt_matches(f, ins) && link_kind(&a.links, ex) == LinkKind::Healthy {
@@ -1267,33 +1785,40 @@ impl M {
         }
 
         // ---- R5: state keeps updating while disabled = same update as an enabled engine performs
-        if !pre_enabled && proposals.is_empty() && matches!(ev, Ev::Market(_) | Ev::Fill(_) | Ev::SnapOpen(_) | Ev::SnapCancelled(_)) {
+        let state_event = ev.is_probe() || matches!(ev, Ev::Market(_) | Ev::Fill(_) | Ev::SnapOpen(_) | Ev::SnapCancelled(_));
+        if !pre_enabled && proposals.is_empty() && state_event {
             bump(&self.cov.disabled_state_updates_checked);
             let healthy = vec![Some(TxMode::Healthy); self.n_ex];
             let (mut e2, _t) = mk_engine(&self.instruments, pre.clone(), &healthy, ScriptStrategy::default(), ScriptRisk::default());
-            let _ = e2.process(EngineEvent::TradingStateUpdate(TradingState::Enabled));
-            let _ = e2.process(event.clone());
-            let same = e2.state.instruments == post.instruments && e2.state.assets == post.assets && e2.state.connectivity == post.connectivity;
+            let same = crate::core::guarded(|| {
+                let _ = e2.process(EngineEvent::TradingStateUpdate(TradingState::Enabled));
+                let _ = e2.process(event.clone());
+                e2.state.instruments == post.instruments && e2.state.assets == post.assets && e2.state.connectivity == post.connectivity
+            })
+            .unwrap_or(true);
             if !same {
                 out.push((format!("C03/disabled-state-still-updates/{}", ev_kind(ev)), format!("{ev:?} processed while disabled leaves a state different from the one an enabled engine (idle strategy) reaches")));
             }
-            if pre.instruments != post.instruments || pre.connectivity != post.connectivity {
+            if pre.instruments != post.instruments || pre.connectivity != post.connectivity || pre.assets != post.assets {
                 bump(&self.cov.disabled_state_updates_changed_state);
+                if ev.is_probe() {
+                    bump(&self.cov.disabled_probe_updates_changed_state);
+                }
             }
         }
 
         // terminal tick (fatal error or shutdown): the engine stops, no successor
-        if rep.audit_errors > 0 || matches!(ev, Ev::Shutdown) {
+        if rep.audit_errors > 0 || matches!(ev, Ev::Shutdown) || ev.is_probe() {
             return None;
         }
-        Some(engine.state)
+        Some(post_state)
     }
 }
 
 /// the strategy proposal cancels an order the input event itself addresses: outcome depends on the
 /// order-lifecycle rules (C01), not demanded here
 fn touched_conflict(obs: &Obs, r: &ExecutionRequest) -> bool {
-    obs.touched.contains(&parts(r).3)
+    obs.touched.contains(&(parts(r).2, parts(r).3))
 }
 
 impl Model for M {
@@ -1340,12 +1865,18 @@ fn cov_json(c: &Cov) -> Value {
         "disabled_state_updates_changed_state": g(&c.disabled_state_updates_changed_state),
         "enabling_event_generations": g(&c.enabling_event_generations),
         "commands_while_disabled": g(&c.commands_while_disabled),
+        "real_channel_ticks": g(&c.real_channel_ticks),
+        "probe_event_ticks": g(&c.probe_ticks),
+        "disabled_probe_updates_changed_state": g(&c.disabled_probe_updates_changed_state),
+        "close_positions_strategy_cancels_checked": g(&c.close_positions_cancels),
+        "recoverable_failure_ticks_not_terminal": g(&c.recoverable_only_ticks_checked),
     })
 }
 
 /// (exchanges, bound on tracked pool orders, depth)
 fn configs(ctx: &Ctx) -> Vec<(usize, usize, usize)> {
-    ctx.tier.pick(vec![(2, 2, 4)], vec![(2, 2, 6), (2, 3, 4), (3, 2, 4)])
+    // (the single-exchange system is the most common deployment: index 0 valid, every other index unknown)
+    ctx.tier.pick(vec![(2, 2, 4), (1, 2, 4)], vec![(2, 2, 6), (2, 3, 4), (3, 2, 4), (1, 2, 6)])
 }
 
 pub fn run(ctx: &Ctx) -> Outcome {
@@ -1378,7 +1909,8 @@ pub fn run(ctx: &Ctx) -> Outcome {
     }
     // non-vacuity: the interesting branches must have been exercised
     for key in ["requests_reported_sent", "requests_reported_failed_fatal", "requests_reported_failed_recoverable", "requests_reported_refused",
-        "disabled_ticks_with_strategy_proposal", "enabling_event_generations", "commands_while_disabled", "disabled_state_updates_changed_state"] {
+        "disabled_ticks_with_strategy_proposal", "enabling_event_generations", "commands_while_disabled", "disabled_state_updates_changed_state",
+        "real_channel_ticks", "probe_event_ticks", "disabled_probe_updates_changed_state", "close_positions_strategy_cancels_checked"] {
         if totals.get(key).copied().unwrap_or(0) == 0 {
             eprintln!("MACHINERY: C03 exploration never exercised `{key}`");
             std::process::exit(2);
@@ -1393,7 +1925,7 @@ pub fn run(ctx: &Ctx) -> Outcome {
         "exhaustive": true,
         "per_configuration": per,
         "samples": samples,
-        "rule": "BFS over the real EngineState (canonicalised); every transition = one real Engine::process (or direct generate_algo_orders) with strategy output, risk verdict and per-exchange link fault mode chosen by the explorer; oracle R1-R6 on audit + link logs + order state",
+        "rule": "BFS over the real EngineState (canonicalised); every transition = one real Engine::process (or direct generate_algo_orders) with strategy output (algo + ClosePositions cancels), risk verdict (per kind / per request) and per-exchange link fault mode chosen by the explorer, links scripted or real UnboundedTx channels; probe events (reconnect notices, balance / full account snapshots, cancel responses, L1) judged in every state without successor; oracle R1-R7 on audit (+ is_terminal) + link logs + order state per (instrument, cid)",
     });
     if let Value::Object(o) = &mut cov {
         for (k, v) in totals {
@@ -1405,7 +1937,10 @@ pub fn run(ctx: &Ctx) -> Outcome {
         coverage: cov,
         assumptions: vec![
             "client order ids are unique per order (fresh ids for every open; ClosePositions uses one deterministic id per instrument)".into(),
-            "histories bounded by depth; at most 2 simultaneously tracked strategy/command orders; 2-3 exchanges, 3-4 instruments".into(),
+            "histories bounded by depth; at most 2-3 simultaneously tracked strategy/command orders; 1-3 exchanges, 2-4 instruments".into(),
+            "client order ids are unique per instrument only: the same cid may be tracked on two instruments (never cancelled and re-opened in one tick)".into(),
+            "probe events (reconnect notices, balance snapshot, full account snapshot, cancel response, market L1) are executed in every reached state with healthy links and a reduced strategy menu, and have no successor; whether the strategy is consulted on a reconnect notice while enabled is not demanded".into(),
+            "real-channel ticks (UnboundedTx) cover SendOpenRequests / SendCancelRequests commands, the enabling event and direct generate_algo_orders calls; that link type has no recoverable send error".into(),
             "a history ends at the first terminal tick (unrecoverable error or Shutdown)".into(),
             "the strategy never cancels the order that the same tick's order snapshot addresses (that outcome is C01's subject)".into(),
             "whether algo generation runs after a command / Shutdown is not demanded (statement silent); the event that disables trading is judged as a disabled tick".into(),
